@@ -283,11 +283,15 @@ def run_check(prop, tier, verif_seed, repo, jobs, count=None, wallcap=None, shri
     samples = []
     by_sig = {}
     nviol = 0
+    notes = []
     for i in sorted(b.results):
         r = b.results[i]
         st = r.get('stats', {})
         merge_counts(agg, dict((k, v) for k, v in st.items()
-                               if k not in ('shape', 'schedule', 'sample', 'nontrivial', 'lines')))
+                               if k not in ('shape', 'schedule', 'sample', 'nontrivial', 'lines',
+                                            'notes')))
+        for note in st.get('notes', []):
+            notes.append('scenario %d: %s' % (i, note))
         for x in st.get('lines', []):
             lines_reached.add(tuple(x))
         if 'shape' in st:
@@ -304,6 +308,8 @@ def run_check(prop, tier, verif_seed, repo, jobs, count=None, wallcap=None, shri
         for v in r.get('violations', []):
             nviol += 1
             by_sig.setdefault(v['sig'], []).append((i, v))
+    for note in notes[:10]:
+        print('HARNESS-WARNING property=%s %s' % (prop, note[:400]))
     # ---- violations
     unknown = 0
     known_seen = []
@@ -420,6 +426,16 @@ def run_check(prop, tier, verif_seed, repo, jobs, count=None, wallcap=None, shri
                                    'process creation (fork of a pristine interpreter)'],
             'repo': repo,
         }
+        if notes:
+            cov['harness_warnings'] = notes[:20]
+        if agg.get('checks', {}).get('real_subprocess_scenarios'):
+            cov['real_subprocess_crosscheck'] = (
+                '%d scenarios (%d commands) were also executed as real `python treetools ...` '
+                'processes on a real directory without any seam; exit statuses and produced '
+                'files compared byte for byte with the simulated run: %d disagreement(s)'
+                % (agg['checks']['real_subprocess_scenarios'],
+                   agg['checks'].get('real_subprocess_commands', 0),
+                   agg['checks'].get('real_subprocess_disagreements', 0)))
         if os.environ.get('VERIF_LINES_OUT'):
             # development aid: the (file, line) pairs behind repo_lines_reached
             with open(os.environ['VERIF_LINES_OUT'], 'a', encoding='utf-8') as lf:
